@@ -12,6 +12,9 @@ _NAMES = {"do_onboard": "onboard", "do_attestation": "attestation", "do_get_pubk
           "do_changepin": "changepin", "do_authorize_signer": "authorize_signer"}
 
 
+VALUE_FLAGS = {"-p", "-P"} | {flag for _, flag in _VALUES}
+
+
 class ExitStatus(RuntimeError):
     """The program ended with a non-zero exit status."""
 
@@ -50,9 +53,10 @@ def as_program(fn, options, ledger):
             with contextlib.redirect_stderr(err):
                 mod.main()
         except SystemExit as e:
+            values = [argv[i + 1] for i in range(2, len(argv) - 1)
+                      if argv[i] in VALUE_FLAGS]
             if e.code == 2 and "usage:" in err.getvalue() and \
-                    not any(isinstance(x, str) and x.startswith("-") and len(x) > 2
-                            for x in argv[2:]):
+                    not any(isinstance(x, str) and x.startswith("-") for x in values):
                 # the argument parser turned the command line down: the harness wrote one the
                 # program does not understand (an option value that looks like an option is
                 # the operator's doing and counts as a refusal)
